@@ -1,0 +1,5 @@
+//go:build !verif
+
+package filesys
+
+func verifHook(point, dir, name string, fd int) {}
